@@ -214,7 +214,7 @@ Proof. exact wit_inv. Qed.
 Example ex_window_points_nonvacuous :
   map (fun k => in_window (firstn k (ops_of wit_op wit_state))) [0; 1; 2]%nat = [false; true; false]
   /\ lease_only wit_op = true /\ length (ops_of wit_op wit_state) = 2%nat.
-Proof. vm_compute. repeat split. Qed.
+Proof. exact wit_window_points. Qed.
 
 Example ex_witness_states :
   view_of (wit_state (Final 0 0)) = VImm (unhex "68656c6c6f"%string) [wit_rec0] /\
@@ -222,7 +222,7 @@ Example ex_witness_states :
   = VImm (unhex "68656c6c6f"%string ++ wit_rec0) [wit_rec1] /\
   view_of (recover (run_p (firstn 2 (plain_ops wit_op wit_state)) wit_state) (Final 0 0))
   = VImm (unhex "68656c6c6f"%string) [wit_rec0; wit_rec1].
-Proof. vm_compute. repeat split. Qed.
+Proof. exact wit_window_state. Qed.
 
 (* an upload whose close completed is present, one cut before the rename is absent *)
 Example ex_upload_nonvacuous :
@@ -232,7 +232,7 @@ Example ex_upload_nonvacuous :
   view_of (recover (run_p (firstn 5 ops) empty_fs) (Final 0 0)) = VAbsent /\
   run_p (firstn 5 ops) empty_fs (Incoming 0 0) <> None /\
   recover (run_p (firstn 5 ops) empty_fs) (Incoming 0 0) = None.
-Proof. vm_compute. repeat split. discriminate. Qed.
+Proof. exact wit_upload. Qed.
 
 (* a three-chunk share sent as chunk 0, chunk 0 again, chunk 1: three accepted
    writes, nine bytes in total for a nine-byte share, but the union is six bytes:
@@ -245,7 +245,7 @@ Example ex_http_resent_chunk_nonvacuous :
   covered 9 (write_ranges 9 [c0; c0; c1; c2]) = true /\
   view_of (recover (run_p (http_upload_ops 0 0 9 wit_rec0 [c0; c0; c1; c2]) empty_fs) (Final 0 0))
   = VImm [1; 2; 3; 4; 5; 6; 7; 8; 9] [wit_rec0].
-Proof. vm_compute. repeat split. Qed.
+Proof. exact wit_http_resent. Qed.
 
 (* close() whose rename into the final place fails (incoming/ on another file
    system, EXDEV): fileutil.rename gives up, no file call follows; the upload
